@@ -59,6 +59,8 @@ def run_scenario(chk, sc, cfgseed, fields, axes):
     os.makedirs(d)
     src = os.path.join(d, "plt2d")
     gamma.write_plotfile(src, ap, cfg_, values=flds.values)
+    if cfgseed % 5 == 2:
+        gamma.add_stale_files(src, ap, cfg_, cfgseed)       # left-overs of an earlier, larger plotfile in the same directory
     before = alpha.tree_digest(src)
     lim = sc["lim"]
     try:
